@@ -506,6 +506,7 @@ def run_real(case):
 # ---------------------------------------------------------------------------------------------------------------------
 # oracle: the three clauses of the property, on the implementation log only
 # ---------------------------------------------------------------------------------------------------------------------
+KNOWN_SIGS = ("restart-in-stopped-handler",)
 KNOWN_AFTER_RESTART = ("stop-event-ignored", "registry-leak", "fired-after-stop", "start-not-completed", "stop-not-completed")
 
 
@@ -850,6 +851,9 @@ def one_case(ctx, model, case, sample=True):
             ctx.count("vacuous_no_cycle")
     res = oracle(case, real, crash)
     if res is not None:
+        if res[0] in KNOWN_SIGS and any(f["signature"] == res[0] for f in ctx.failures):
+            ctx.count("known_" + res[0])        # recorded once per run, shrunk once
+            return
         small, r2 = shrink(case, res[0])
         ctx.fail(res[0], small, (r2 or res)[1])
         return
@@ -906,9 +910,9 @@ def run(ctx):
     try:
         for case in corpus():
             one_case(ctx, model, case)
-        for i in range(ctx.n(260, 4000)):
+        for i in range(ctx.n(700, 9000)):
             one_case(ctx, model, gen_case(ctx.rng("case", i)))
-            if len(ctx.failures) >= 3:
+            if len([f for f in ctx.failures if f["signature"] not in KNOWN_SIGS]) >= 3:
                 break
         ctx.notes["calibrated_mode_configurations"] = len(_CAL)
     finally:
